@@ -146,6 +146,8 @@ func main() {
 		c10DigestMain(os.Args[2:])
 	case "c11":
 		c11Main(os.Args[2:])
+	case "c11-escalate":
+		c11EscalateMain(os.Args[2:])
 	case "c11-min":
 		c11MinMain(os.Args[2:])
 	case "c11-replay":
